@@ -13,6 +13,7 @@ import itertools
 import json
 import sys
 import types
+import typing
 
 from .. import dump, gen
 from .construct import make_ctx, err_name, fix_accepts
@@ -605,6 +606,10 @@ def define(v):
     mod.__file__ = modname + ".py"
     sys.modules[modname] = mod
     src = variant_source(v)
+    # typing memoises `List[...]` etc. by `==` of the arguments, and `float | None == Optional[float]`: without
+    # this, `List[float | None]` silently evaluates to an earlier `List[Optional[float]]` of the same process
+    for clear in getattr(typing, "_cleanups", []):
+        clear()
     try:
         exec(compile(src, modname + ".py", "exec"), mod.__dict__)  # pylint: disable=exec-used
         return mod.K, modname
@@ -733,8 +738,16 @@ PRIORITY = ["future-annotation-50", "pep604-plain-union", "pep604-plain-union-ne
             "field-pipe-nonconvertible", "falsy-default-kw", "typing-union-duplicate", "typing-union-flattened"]
 
 
-def site(feats):
-    for p in PRIORITY:
+CAUSES = {
+    "definition-error": ["pep604-plain-union-nested", "field-pipe-none", "field-pipe-nonconvertible", "falsy-default-kw"],
+    "field-dropped": ["future-annotation-50", "pep604-plain-union"],
+    "error-class-differs": ["typing-union-duplicate"],
+}
+
+
+def site(feats, phenomenon=None):
+    """the known-divergence feature a difference is attributed to ('plain' = none: a new violation)"""
+    for p in CAUSES.get(phenomenon, []) + PRIORITY:
         if p in feats:
             return p
     return "plain"
@@ -788,12 +801,12 @@ def oracle(case, impl, model):
             diff = compare_variants(ref, iv)
             if diff and diff[0] == "definition-error-class" and site(feats + ref_feats) != "plain":
                 diff = None   # both raise; with a known divergence in play the classes are not comparable
-            if diff and "def_err" in ref and site(feats) not in ("plain", "falsy-default-kw"):
+            if diff and "def_err" in ref and any(x != "falsy-default-kw" for x in feats):
                 diff = None   # the reference itself is rejected (invalid default): only clean spellings are compared
             if diff:
                 ph, what = diff
                 ref_src = json.dumps([field_source(f)[0] for f in case["variants"][0]["fields"]])
-                fails.append((f"{ph}:{site(feats + ref_feats)}", f"{srcs} vs reference {ref_src}: {what}"))
+                fails.append((f"{ph}:{site(feats + ref_feats, ph)}", f"{srcs} vs reference {ref_src}: {what}"))
         # documented meaning vs real class, field by field (only where the spec claims it)
         all_sup = all(mf["supported"] for mf in mv["fields"])
         if "cls" in iv:
